@@ -4,10 +4,14 @@ use crate::term::*;
 pub mod c01;
 pub mod c02;
 pub mod c03;
+pub mod c04;
 pub mod c05;
+pub mod c07;
 pub mod c08;
 pub mod c09;
+pub mod c10;
 pub mod c11;
+pub mod c12;
 pub mod c15;
 pub mod c16;
 pub mod c17;
@@ -24,11 +28,15 @@ pub fn gen(prop: &str, tier: &str, seed: u64) -> Gen {
         "C01" => c01::gen(tier, seed),
         "C02" => c02::gen(tier, seed),
         "C03" => c03::gen(tier, seed),
+        "C04" => c04::gen(tier, seed),
         "C05" => c05::gen(tier, seed),
+        "C07" => c07::gen(tier, seed),
         "C08" => c08::gen(tier, seed),
         "C09" => c09::gen(tier, seed),
+        "C12" => c12::gen(tier, seed),
         "C15" => c15::gen(tier, seed),
         "C16" => c16::gen(tier, seed),
+        "C10" => c10::gen(tier, seed),
         "C11" => c11::gen(tier, seed),
         "C17" => c17::gen(tier, seed),
         "C18" => c18::gen(tier, seed),
@@ -42,11 +50,15 @@ pub fn run(prop: &str, case: &Term) -> Term {
         "C01" => c01::run(case),
         "C02" => c02::run(case),
         "C03" => c03::run(case),
+        "C04" => c04::run(case),
         "C05" => c05::run(case),
+        "C07" => c07::run(case),
         "C08" => c08::run(case),
         "C09" => c09::run(case),
+        "C12" => c12::run(case),
         "C15" => c15::run(case),
         "C16" => c16::run(case),
+        "C10" => c10::run(case),
         "C11" => c11::run(case),
         "C17" => c17::run(case),
         "C18" => c18::run(case),
